@@ -226,11 +226,22 @@ func (g *opGen) inputLiteral(d *ast.Definition, depth int) (string, interface{})
 	return "{" + strings.Join(parts, ", ") + "}", val
 }
 
+// varName names the k-th variable of an operation. Neighbouring variables differ ONLY BY CASE
+// (`v0`, `V0`, `v1`, `V1`, …): GraphQL names are case-sensitive, so they are different variables, and
+// anything that orders, keys or compares variable names case-insensitively (a header sorted with
+// strings.ToLower, a map keyed by the folded name) confuses exactly such a pair.
+func varName(k int) string {
+	if k%2 == 1 {
+		return fmt.Sprintf("V%d", k/2)
+	}
+	return fmt.Sprintf("v%d", k/2)
+}
+
 // leafOrVar: a scalar literal, or a fresh variable declared with exactly this type
 func (g *opGen) leafOrVar(t *ast.Type) (string, interface{}) {
 	lit, val := g.literal(t)
 	if g.o.Variables && g.r.Chance(1, 3) {
-		vn := fmt.Sprintf("v%d", g.nvar)
+		vn := varName(g.nvar)
 		g.nvar++
 		g.varDefs = append(g.varDefs, "$"+vn+": "+t.String())
 		g.vars[vn] = val
@@ -274,10 +285,10 @@ func (g *opGen) args(fd *ast.FieldDefinition) string {
 		if g.o.Variables && g.r.Chance(1, 2) {
 			// the literal is replaced by one variable: variables declared inside it are dropped with it
 			for k := nVar; k < g.nvar; k++ {
-				delete(g.vars, fmt.Sprintf("v%d", k))
+				delete(g.vars, varName(k))
 			}
 			g.varDefs, g.nvar = g.varDefs[:nDefs], nVar
-			vn := fmt.Sprintf("v%d", g.nvar)
+			vn := varName(g.nvar)
 			if !g.usedIDVar && g.r.Chance(1, 8) && g.o.IDVar {
 				vn = "id" // a client variable that happens to be called like the executor's own $id
 				g.usedIDVar = true
@@ -326,7 +337,7 @@ func (g *opGen) directive() string {
 	g.features["directive"] = true
 	d := hx.Pick(g.r, []string{"skip", "include"})
 	if g.o.Variables && g.r.Chance(1, 2) {
-		vn := fmt.Sprintf("v%d", g.nvar)
+		vn := varName(g.nvar)
 		g.nvar++
 		g.varDefs = append(g.varDefs, "$"+vn+": Boolean!")
 		g.vars[vn] = g.r.Bool()
@@ -533,4 +544,50 @@ func (g *opGen) nodeRoot(alias string) string {
 		return head + " { id }"
 	}
 	return head + " { ... on " + def.Name + " " + g.selSet(def, 1, 3, false) + " }"
+}
+
+// GenTwinVarOp draws `query($tw: T, $Tw: T) { t0: f(a: $tw) … t1: f(a: $Tw) … }`: one root field
+// with an argument, selected under two aliases with two variables whose names differ ONLY BY CASE
+// and whose values are drawn independently. Both selections go to the same service, so one
+// sub-request declares both variables: whatever orders, keys or compares variable names must
+// treat them as the two different variables they are, and the same way on every run.
+func GenTwinVarOp(r *hx.Rand, schema *ast.Schema, data *Data) *Op {
+	g := &opGen{r: r, schema: schema, data: data, o: OpOptions{Args: true}, vars: map[string]interface{}{}, features: map[string]bool{}}
+	if schema.Query == nil {
+		return nil
+	}
+	var cands []*ast.FieldDefinition
+	for _, fd := range schema.Query.Fields {
+		if strings.HasPrefix(fd.Name, "__") || fd.Name == "node" || len(fd.Arguments) == 0 {
+			continue
+		}
+		cands = append(cands, fd)
+	}
+	if len(cands) == 0 {
+		return nil
+	}
+	fd := cands[r.Intn(len(cands))]
+	a := fd.Arguments[r.Intn(len(fd.Arguments))]
+	names := [][2]string{{"tw", "Tw"}, {"lang", "Lang"}, {"aB", "Ab"}, {"x", "X"}}[r.Intn(4)]
+	sel := ""
+	if g.isComposite(fd.Type) {
+		sel = " " + g.leafSel(schema.Types[fd.Type.Name()])
+	}
+	var parts []string
+	for k, vn := range names {
+		var args []string
+		for _, b := range fd.Arguments {
+			if b == a {
+				_, val := g.literal(b.Type)
+				g.vars[vn] = val
+				args = append(args, b.Name+": $"+vn)
+			} else if b.Type.NonNull {
+				lit, _ := g.literal(b.Type)
+				args = append(args, b.Name+": "+lit)
+			}
+		}
+		parts = append(parts, fmt.Sprintf("t%d: %s(%s)%s", k, fd.Name, strings.Join(args, ", "), sel))
+	}
+	q := fmt.Sprintf("query($%s: %s, $%s: %s) { %s }", names[0], a.Type.String(), names[1], a.Type.String(), strings.Join(parts, " "))
+	return &Op{Query: q, Variables: g.vars, Kind: "query", Features: []string{"case-twin-variables"}}
 }
